@@ -36,7 +36,10 @@ func w2Gen(r *rand.Rand, prop, tier string) *simrt.Case {
 			g := int64(r.IntN(len(w2Groups)))
 			c.Program = append(c.Program, simrt.Op{Actor: m, Kind: "cycle", A: g, B: 15, C: 3, D: 1})
 			for i := 0; i < 3+r.IntN(10); i++ {
-				switch r.IntN(5) {
+				switch r.IntN(6) {
+				case 5:
+					// several partitions in one request, some with a null metadata string
+					c.Program = append(c.Program, simrt.Op{Actor: m, Kind: "mcommit", B: int64(r.IntN(4)), C: int64(r.IntN(3)), D: int64(r.IntN(16))})
 				case 0, 1:
 					c.Program = append(c.Program, simrt.Op{Actor: m, Kind: "commit", B: int64(r.IntN(4)), C: int64(r.IntN(3))})
 				case 2, 3:
@@ -59,7 +62,7 @@ func w2Gen(r *rand.Rand, prop, tier string) *simrt.Case {
 			}
 			c.Program = append(c.Program, simrt.Op{Actor: m, Kind: "cycle", A: grp, B: mask(), C: int64(3 + r.IntN(6)), D: pk[int64](r, 1, 20, 200)})
 			for i := 0; i < 2+r.IntN(8); i++ {
-				dev := pk(r, "", "", "stale", "stale", "alien", "other", "future")
+				dev := pk(r, "", "", "stale", "stale", "alien", "other", "future", "anon")
 				switch r.IntN(4) {
 				case 0, 1:
 					c.Program = append(c.Program, simrt.Op{Actor: m, Kind: "commit", B: int64(r.IntN(4)), C: int64(r.IntN(2)), S: dev})
@@ -88,7 +91,7 @@ func w2Gen(r *rand.Rand, prop, tier string) *simrt.Case {
 	case "C43":
 		g := int64(r.IntN(2))
 		for m := 0; m < nm; m++ {
-			switch kind := r.IntN(5); kind {
+			switch kind := r.IntN(6); kind {
 			case 0, 1: // diligent: gaps far below the session timeout and the rebalance timeout
 				c.Program = append(c.Program, simrt.Op{Actor: m, Kind: "cycle", A: g, B: mask(), C: iters * 2, D: min(pk[int64](r, 50, 300, session/4), cfg["rebalance_ms"]/5), S: "diligent"})
 			case 2: // diligent, but waits for a rebalance with heartbeats instead of re-sending the join at once
@@ -98,6 +101,12 @@ func w2Gen(r *rand.Rand, prop, tier string) *simrt.Case {
 				c.Program = append(c.Program, simrt.Op{Actor: m, Kind: "sleep", A: session + cfg["cleanup_ms"] + pk[int64](r, 1600, 4000, 20000)})
 				c.Program = append(c.Program, simrt.Op{Actor: m, Kind: pk(r, "hb", "commit", "sync", "join"), A: g, B: mask(), C: session, D: cfg["rebalance_ms"]})
 				c.Program = append(c.Program, simrt.Op{Actor: m, Kind: "cycle", A: g, B: mask(), C: 4, D: 100})
+			case 4: // rejoins announcing a much shorter session timeout, then goes silent for longer than that (but not longer than the old one)
+				short := max(session/4, 800)
+				c.Program = append(c.Program, simrt.Op{Actor: m, Kind: "cycle", A: g, B: mask(), C: int64(3 + r.IntN(4)), D: 100})
+				c.Program = append(c.Program, simrt.Op{Actor: m, Kind: "join", A: g, B: mask(), C: short, D: cfg["rebalance_ms"]}, simrt.Op{Actor: m, Kind: "sync"}, simrt.Op{Actor: m, Kind: "hb"})
+				c.Program = append(c.Program, simrt.Op{Actor: m, Kind: "sleep", A: short + cfg["cleanup_ms"] + 1700})
+				c.Program = append(c.Program, simrt.Op{Actor: m, Kind: pk(r, "hb", "commit"), A: g, B: mask()})
 			default: // slow: think time around the session timeout
 				c.Program = append(c.Program, simrt.Op{Actor: m, Kind: "cycle", A: g, B: mask(), C: iters, D: pk[int64](r, session-200, session+200, session*2)})
 			}
